@@ -194,6 +194,14 @@ def classify(ctx, tie, mm):
     why = None
     if impl in ('SANITIZER', 'ABORT', 'SIGSEGV'):
         why = 'the dequantiser trapped (%s: out-of-bounds table read, undefined behaviour or assertion) on this input' % impl
+    elif op == 'synthcore':
+        if impl == 'ABORT':
+            why = ('a celt_assert of silk_decode_core / silk_LPC_analysis_filter fired on parameters for which the index model '
+                   '(theorem decode_core_indices_in_bounds) shows none can')
+        else:
+            why = ('the element indices silk_decode_core actually read / wrote (recorded by compiler-inserted access callbacks '
+                   'on the repo source) differ from the index model on which decode_core_indices_in_bounds is proved: the '
+                   'memory-safety theorem no longer speaks about this code')
     elif op == 'stab' and len(toks) >= 4:
         out = _ints(impl[3:]) if impl.startswith('OK ') else None
         d = _ints(toks[3])
